@@ -8,7 +8,7 @@ Streams (one harness run, see harness/cmd/avfscheck/fileio.go):
                                  in known_findings.jsonl; anything else is a VIOLATION.
 """
 import os
-from .. import run_driver_sharded, log
+from .. import run_driver_sharded, log, GOENV
 from ..props import CHECKS
 
 STREAM = {"name": "fileio", "harness": "fileio", "driver": "fileio"}
@@ -99,11 +99,72 @@ def analyse(ctx, name, limit=3):
     return stats, bad
 
 
+def fast_eval(ctx, harness_cmd, driver_cmd, line, tag="fast"):
+    """Run one case through harness and driver without the build steps of ctx.stream (used by the shrinker).
+    Returns (model, observed) or None."""
+    import subprocess
+    from .. import HARNESS, ML
+    binp = os.path.join(HARNESS, "bin", "avfscheck-base")
+    rf = os.path.join(ctx.dir, tag + ".replayin")
+    with open(rf, "w") as f:
+        f.write(line + "\n")
+    p = subprocess.run([binp, harness_cmd, "-out", ctx.dir, "-name", tag, "-replay", rf], env=GOENV, cwd=ctx.dir,
+                       stdout=subprocess.PIPE, stderr=subprocess.STDOUT, timeout=300)
+    if p.returncode != 0:
+        return None
+    with open(os.path.join(ctx.dir, tag + ".cases")) as fin:
+        q = subprocess.run([os.path.join(ML, "driver"), driver_cmd], stdin=fin, stdout=subprocess.PIPE, stderr=subprocess.PIPE, timeout=300)
+    if q.returncode != 0:
+        return None
+    obs = open(os.path.join(ctx.dir, tag + ".observed")).read().rstrip("\n")
+    return q.stdout.decode().rstrip("\n"), obs
+
+
+def fast_shrink(ctx, harness_cmd, driver_cmd, case, budget=600):
+    """delta debugging over the ops of 'header | op | op ...' with fast_eval as the oracle"""
+    parts = case.split(" | ")
+    head, ops = parts[0], parts[1:]
+
+    def bad(ops_):
+        r = fast_eval(ctx, harness_cmd, driver_cmd, " | ".join([head] + ops_))
+        return r is not None and r[0] != r[1]
+    if not bad(ops):
+        return case
+    n = 2
+    while len(ops) >= 2 and budget > 0:
+        chunk = max(1, len(ops) // n)
+        reduced = False
+        for i in range(0, len(ops), chunk):
+            cand = ops[:i] + ops[i + chunk:]
+            budget -= 1
+            if cand and bad(cand):
+                ops, n, reduced = cand, max(n - 1, 2), True
+                break
+            if budget <= 0:
+                break
+        if not reduced:
+            if chunk == 1:
+                break
+            n = min(len(ops), n * 2)
+    return " | ".join([head] + ops)
+
+
+def full_views(on):
+    """views travel as digests; the final recording of a shrunk case shows them in full"""
+    for env in (GOENV, os.environ):
+        if on:
+            env["VERIF_FIO_FULLVIEW"] = "1"
+        else:
+            env.pop("VERIF_FIO_FULLVIEW", None)
+
+
 def report_ab(ctx, mm, tag="fileio"):
     """A / B mismatches: model and observation differ."""
-    for (i, c, m, o) in mm[:2]:
-        case = ctx.shrink(STREAM["name"], STREAM["harness"], STREAM["driver"], c)
+    for (i, c, m, o) in mm[:1]:
+        case = fast_shrink(ctx, STREAM["harness"], STREAM["driver"], c)
+        full_views(True)
         mm2 = ctx.stream(STREAM["name"] + "-shrink", STREAM["harness"], STREAM["driver"], replay_lines=[case])
+        full_views(False)
         if mm2:
             _, c2, m, o = mm2[0]
         d = first_diff(m, o)
@@ -119,9 +180,11 @@ def report_ab(ctx, mm, tag="fileio"):
 
 def report_dev(ctx, bad, total):
     """Unclassified deviations from os.File: shrink on the O projection and record a replay."""
-    for (i, c, o, k, dev) in bad[:2]:
-        case = ctx.shrink(OSTREAM["name"], OSTREAM["harness"], OSTREAM["driver"], c)
+    for (i, c, o, k, dev) in bad[:1]:
+        case = fast_shrink(ctx, OSTREAM["harness"], OSTREAM["driver"], c)
+        full_views(True)
         mm2 = ctx.stream(OSTREAM["name"] + "-shrink", OSTREAM["harness"], OSTREAM["driver"], replay_lines=[case])
+        full_views(False)
         m2, o2 = ("", "")
         if mm2:
             _, _, m2, o2 = mm2[0]
